@@ -92,5 +92,7 @@ Definition check_C11 (c : c11_case) : bool :=
   | CArr real n_ bins arr =>
       let tol := rel_tol * l1 bins in
       (Z.of_nat (length bins) =? zprod n_)%Z &&
-      forallb2 (forallb2 (cplx_close tol)) (arrange [] real n_ bins) arr
+      forallb2 (forallb2 (cplx_close tol)) (arrange [] real n_ bins) arr &&
+      (* and the other way round: un-shifting the k-space array gives the natural-order (half) spectrum *)
+      forallb2 (forallb2 (cplx_close tol)) (unarrange [] real (kshape real n_) arr) (half_spectrum [] real n_ bins)
   end.
